@@ -53,6 +53,18 @@ def _call(args):
         signal.alarm(0)
 
 
+def raised_in_checker(e):
+    """True if the innermost frame of the exception is code of /verif (a checker bug, never a property violation)"""
+    tb = e.__traceback__
+    last = None
+    while tb is not None:
+        last = tb
+        tb = tb.tb_next
+    fn = last.tb_frame.f_code.co_filename if last is not None else ""
+    here = os.path.dirname(os.path.dirname(os.path.abspath(__file__)))
+    return fn.startswith(here) and "/.venv/" not in fn
+
+
 def _brief(task):
     s = repr(task)
     return s if len(s) < 300 else s[:300] + "..."
